@@ -302,3 +302,17 @@ Example C13_quirk_proto_negzero_refuted :
   msg_eqv [(1, VList true [VScalar 1 (2 ^ 63)])] (m_drop_negzero [(1, VList true [VScalar 1 (2 ^ 63)])]) = false.
 Proof. vm_compute. reflexivity. Qed.
 End ProtoHalf.
+
+(* ---- the reader dec2f64 / dec2f32 behind every numeric comparison of this property is correctly rounded (proved) ---- *)
+From DG Require Dec2FloatCorrect.
+Theorem C13_dec2f64_correct : forall d, Num.f64_rounds_to d (Num.dec2f64 d) = true.
+Proof. exact Dec2FloatCorrect.dec2f64_correct. Qed.
+Print Assumptions C13_dec2f64_correct.
+
+Theorem C13_dec2f64_unique : forall d b, 0 <= b < 2 ^ 64 -> Num.f64_rounds_to d b = true -> b = Num.dec2f64 d.
+Proof. exact Dec2FloatCorrect.dec2f64_unique. Qed.
+Print Assumptions C13_dec2f64_unique.
+
+Theorem C13_dec2f32_correct : forall d, Num.f32_rounds_to d (Num.dec2f32 d) = true.
+Proof. exact Dec2FloatCorrect.dec2f32_correct. Qed.
+Print Assumptions C13_dec2f32_correct.
